@@ -46,6 +46,35 @@ Theorem C11_refused_untouched cfg st r :
 Proof. exact (refused_untouched account key sig msg account_eqb verify state handler trusted_of cfg st r). Qed.
 End C11.
 
+(* the trusted set is the replay of the device log (model: reduce_devices = DeviceReducer::reduce) *)
+Section C11_devices.
+Variables account key sig msg : Type.
+Variable account_eqb : account -> account -> bool.
+Variable verify : key -> msg -> sig -> bool.
+Variable key_eqb : key -> key -> bool.
+Hypothesis key_eqb_spec : forall a b, key_eqb a b = true <-> a = b.
+Theorem C11_trusted_iff_last_event_is_trust log k :
+  In k (reduce_devices key key_eqb log) <-> last_about key key_eqb k log None = Some true.
+Proof. exact (trusted_iff_last_trust key key_eqb key_eqb_spec log k). Qed.
+Theorem C11_revoked_last_is_not_trusted log k : ~ In k (reduce_devices key key_eqb (log ++ [DevRevoke key k])).
+Proof. exact (revoked_not_trusted key key_eqb key_eqb_spec log k). Qed.
+Theorem C11_other_devices_events_irrelevant log rest k :
+  (forall e, In e rest -> e <> DevTrust key k /\ e <> DevRevoke key k) ->
+  (In k (reduce_devices key key_eqb (log ++ rest)) <-> In k (reduce_devices key key_eqb log)).
+Proof. exact (other_events_irrelevant key key_eqb key_eqb_spec log rest k). Qed.
+Theorem C11_revoked_device_refused cfg (logs : account -> option (list (dev_event key))) r a log k s :
+  ar_account _ _ _ r = Some a -> ar_token _ _ _ r = TokSig _ s -> logs a = Some log ->
+  (forall k', verify k' (ar_signed _ _ _ r) s = true -> k' = k) ->
+  last_about key key_eqb k log None <> Some true ->
+  authorize account key sig msg account_eqb verify cfg
+    (fun a => option_map (reduce_devices key key_eqb) (logs a)) r <> Accept.
+Proof. exact (revoked_device_refused account key sig msg account_eqb verify key_eqb key_eqb_spec cfg logs r a log k s). Qed.
+End C11_devices.
+(* non-vacuity: trusted, revoked, trusted again, revoked again (the two Revoke events are identical) *)
+Example C11_nonvacuous_rerevoked :
+  reduce_devices nat Nat.eqb [DevTrust nat 1; DevTrust nat 3; DevRevoke nat 3; DevTrust nat 3] = [1; 3] /\
+  reduce_devices nat Nat.eqb [DevTrust nat 1; DevTrust nat 3; DevRevoke nat 3; DevTrust nat 3; DevRevoke nat 3] = [1].
+Proof. split; reflexivity. Qed.
 (* the access check as it was before the fix served an account that is on the deny list *)
 Theorem C11_allow_first_refuted :
   is_allowed_allow_first nat Nat.eqb (Some (mkAccess nat (Some [7]) (Some [7]))) 7 = true /\
@@ -69,3 +98,7 @@ Print Assumptions C11_denied_refused.
 Print Assumptions C11_not_on_allow_list_refused.
 Print Assumptions C11_refused_untouched.
 Print Assumptions C11_allow_first_refuted.
+Print Assumptions C11_trusted_iff_last_event_is_trust.
+Print Assumptions C11_revoked_last_is_not_trusted.
+Print Assumptions C11_other_devices_events_irrelevant.
+Print Assumptions C11_revoked_device_refused.
